@@ -659,6 +659,32 @@ impl<'a> Ctx<'a> {
                         for r in pr.elems() {
                             match self.rtype(r) {
                                 Some(ty) => {
+                                    // the element's own value (empty = 0) must lie within the bounds it declares,
+                                    // reference implementations refuse a node outside its bounds
+                                    let text = r.text();
+                                    match &ty {
+                                        RType::Int { min, max } | RType::Scaled { min, max, .. } => match parse_i64(&text) {
+                                            Ok(v) if v >= *min && v <= *max => {}
+                                            Ok(v) => self.complain(format!("prototype element <{}> has value {v} outside its own bounds {min}..{max}", r.local)),
+                                            Err(m) => self.complain(format!("prototype element <{}>: {m}", r.local)),
+                                        },
+                                        RType::Double { min, max } => match parse_f64(&text) {
+                                            Ok(v) => {
+                                                if min.map(|m| v < m.0).unwrap_or(false) || max.map(|m| v > m.0).unwrap_or(false) {
+                                                    self.complain(format!("prototype element <{}> has value {v} outside its own bounds", r.local));
+                                                }
+                                            }
+                                            Err(m) => self.complain(format!("prototype element <{}>: {m}", r.local)),
+                                        },
+                                        RType::Single { min, max } => match parse_f64(&text) {
+                                            Ok(v) => {
+                                                if min.map(|m| v < m.0 as f64).unwrap_or(false) || max.map(|m| v > m.0 as f64).unwrap_or(false) {
+                                                    self.complain(format!("prototype element <{}> has value {v} outside its own bounds", r.local));
+                                                }
+                                            }
+                                            Err(m) => self.complain(format!("prototype element <{}>: {m}", r.local)),
+                                        },
+                                    }
                                     let prefix = if r.ns == E57_NS { None } else { Some(r.prefix.clone()) };
                                     if r.ns.is_empty() {
                                         self.complain(format!("prototype element <{}> is in no namespace", r.local));
